@@ -19,7 +19,7 @@ def make_scheduler(conf: dict, seed: int, searcher="random", **extra):
     cs = {"x": uniform(0.0, 1.0), "y": uniform(0.0, 1.0), MAXRES: conf["maxt"]}
     kw: Dict[str, Any] = dict(
         searcher=searcher, metric=METRIC, mode="min" if conf["min"] else "max", resource_attr=RES,
-        type=conf["type"], rung_levels=list(conf["levels"]), brackets=conf["nbr"],
+        type=conf.get("sched_type", conf["type"]), rung_levels=list(conf["levels"]), brackets=conf["nbr"],
         rung_system_per_bracket=conf["perbr"], random_seed=seed,
     )
     if conf["mra"]:
@@ -53,6 +53,7 @@ def searcher_state_event(sched) -> dict:
     observation values are mapped back to the reported convention."""
     from syne_tune.optimizer.schedulers.searchers.bayesopt.datatypes.common import INTERNAL_METRIC_NAME
     srch = sched.searcher
+    srch = getattr(srch, "_searcher_int", srch)       # DyHPO wraps a GP multi-fidelity searcher
     state = srch.state_transformer.state
     rev = (lambda x: x) if srch.map_reward is None else srch.map_reward.reverse
     obs = []
